@@ -333,6 +333,48 @@ pub fn replay(args: &[String]) {
             rep.mismatch(json!({"what":"concurrent clone/drop: ledger not balanced or layout mismatch","path":path,"blocks":after.0 - before.0}));
         }
     }
+    // the last two clones dropped at the same instant on two threads: released exactly once
+    {
+        let rounds = 20_000usize;
+        let data = vec![7u8; 24];
+        ledger::start();
+        let before = ledger::live();
+        let slots: Vec<std::sync::Mutex<Option<SharedBytes>>> = (0..2).map(|_| std::sync::Mutex::new(None)).collect();
+        let go = std::sync::atomic::AtomicUsize::new(0);
+        let done = std::sync::atomic::AtomicUsize::new(0);
+        std::thread::scope(|sc| {
+            for t in 0..2 {
+                let (slots, go, done) = (&slots, &go, &done);
+                sc.spawn(move || {
+                    for r in 0..rounds {
+                        while go.load(std::sync::atomic::Ordering::Acquire) < r + 1 {
+                            std::hint::spin_loop();
+                        }
+                        let mine = slots[t].lock().unwrap().take();
+                        drop(mine);
+                        done.fetch_add(1, std::sync::atomic::Ordering::SeqCst);
+                    }
+                });
+            }
+            for r in 0..rounds {
+                let b = ledger::track(|| construct(PATHS[r % 2 * 2], &data)); // "slice" / "vec_excess"
+                *slots[0].lock().unwrap() = Some(b.clone());
+                *slots[1].lock().unwrap() = Some(b);
+                done.store(0, std::sync::atomic::Ordering::SeqCst);
+                go.store(r + 1, std::sync::atomic::Ordering::Release);
+                while done.load(std::sync::atomic::Ordering::SeqCst) < 2 {
+                    std::hint::spin_loop();
+                }
+            }
+        });
+        let after = ledger::live();
+        ledger::stop();
+        rep.cases += 1;
+        if after != before || ledger::LAYOUT_MISMATCH.swap(0, std::sync::atomic::Ordering::SeqCst) > 0 {
+            rep.mismatch(json!({"what":"the last two clones dropped concurrently: the buffer is not released exactly once",
+                "rounds":rounds,"blocks_left":after.0 - before.0,"bytes_left":after.1 - before.1}));
+        }
+    }
     // compare / order / hash like the slices
     for _ in 0..2000 {
         rep.checks += 1;
